@@ -574,6 +574,20 @@ M('C12', 'dk-keylen-param-caller-128', FL, _DK_SIG, _DK_SIG_KW, 'C12.1', more=[(
 M('C12', 'dk-keylen-param-caller-block-size', FL, _DK_SIG, _DK_SIG_KW, 'C12.1', more=[(FL, _DK_CALL, _DK_CALL.replace("derive_key(passphrase)", "derive_key(passphrase, keylen=self.s2k.encalg.block_size)"))])
 M('C12', 'dk-keylen-param-default-256', FL, _DK_SIG, "    def derive_key(self, passphrase, *, keylen=256):\n        ##TODO: raise an exception if self.usage is not 254 or 255\n", 'C12.1')
 M('C12', 'dk-keylen-param-bytes', FL, _DK_SIG, _DK_SIG_KW, 'C12.1', more=[(FL, _DK_CALL, _DK_CALL.replace("derive_key(passphrase)", "derive_key(passphrase, keylen=self.s2k.encalg.key_size // 8)"))])
+# --- wave 6: single-context fast path (guarded early return), digest_size tables
+_DK_H = "        h = []\n        for i in range(0, ctx):\n"
+_FAST = "        if %s:\n            only = self.halg.hasher\n            only.update(hashdata)\n            return only.digest()[:keylen // 8]\n\n"
+T('C12', 'twin-dk-fast-path-ctx1', FL, _DK_H, _FAST % "ctx == 1" + _DK_H)
+T('C12', 'twin-dk-fast-path-sizes', FL, _DK_H, _FAST % "keylen <= hashlen" + _DK_H)
+M('C12', 'dk-fast-path-ctx-le-2', FL, _DK_H, _FAST % "ctx <= 2" + _DK_H, 'C12.1')
+M('C12', 'dk-fast-path-unguarded-keylen', FL, _DK_H, _FAST % "keylen <= 256" + _DK_H, 'C12.1')
+M('C12', 'dk-fast-path-preloaded', FL, _DK_H, "        if ctx == 1:\n            only = self.halg.hasher\n            only.update(b'\\x00')\n            only.update(hashdata)\n            return only.digest()[:keylen // 8]\n\n" + _DK_H, 'C12.1')
+_DS = "    def digest_size(self):\n        return self.hasher.digest_size\n"
+_DS_TBL = "    def digest_size(self):\n        ds = {HashAlgorithm.MD5: 16, HashAlgorithm.SHA1: 20, HashAlgorithm.RIPEMD160: 20, HashAlgorithm.SHA224: %s,\n              HashAlgorithm.SHA256: 32, HashAlgorithm.SHA384: %s, HashAlgorithm.SHA512: 64}\n        if self in ds:\n            return ds[self]\n        return self.hasher.digest_size\n"
+T('C12', 'twin-digest-size-table', CO, _DS, _DS_TBL % (28, 48))
+M('C12', 'digest-size-sha224-32', CO, _DS, _DS_TBL % (32, 48), 'C12.2')
+M('C12', 'digest-size-sha384-bits', CO, _DS, _DS_TBL % (28, 384), 'C12.2')
+M('C12', 'digest-size-get-default', CO, _DS, "    def digest_size(self):\n        return {HashAlgorithm.MD5: 16, HashAlgorithm.SHA1: 20, HashAlgorithm.SHA256: 32, HashAlgorithm.SHA512: 64}.get(self, 32)\n", 'C12.2')
 M('C12', 'count-getter-or-default', FL, "        return (16 + (self._count & 15)) << ((self._count >> 4) + 6)", "        c = self._count or self.halg.tuned_count\n        return (16 + (c & 15)) << ((c >> 4) + 6)", 'C12.3')
 M('C12', 'count-getter-255-special', FL, "        return (16 + (self._count & 15)) << ((self._count >> 4) + 6)", "        if self._count == 255:\n            return self.encalg.block_size * 1024\n        return (16 + (self._count & 15)) << ((self._count >> 4) + 6)", 'C12.3')
 M('C12', 'count-getter-255-capped', FL, "        return (16 + (self._count & 15)) << ((self._count >> 4) + 6)", "        if self._count == 255:\n            return 0x2000000\n        return (16 + (self._count & 15)) << ((self._count >> 4) + 6)", 'C12.3')
@@ -3022,6 +3036,18 @@ T('C06', 'twin-keyblob-derive-keylen-kw', FL, "    def derive_key(self, passphra
 M('C06', 'keyblob-derive-keylen-of-caller-arg', FL, "    def derive_key(self, passphrase):\n        ##TODO: raise an exception if self.usage is not 254 or 255\n        keylen = self.encalg.key_size\n",
   "    def derive_key(self, passphrase, *, keylen=None):\n        ##TODO: raise an exception if self.usage is not 254 or 255\n        if keylen is None:\n            keylen = self.encalg.key_size\n", 'C06.8',
   more=[(FL, "        sessionkey = self.s2k.derive_key(passphrase)\n        del passphrase\n\n        pt = bytearray()", "        sessionkey = self.s2k.derive_key(passphrase, keylen=192)\n        del passphrase\n\n        pt = bytearray()")])
+# --- wave 6: exception paths of protect may not lower the protection state; unlocked is read from the key material
+_ENC_LINE = "        self.encbytes = bytearray(_encrypt(bytes(pt), bytes(sessionkey), enc_alg, bytes(self.s2k.iv)))\n"
+M('C06', 'keyblob-failure-resets-s2k', FL, _ENC_LINE, "        try:\n    " + _ENC_LINE + "        except Exception:\n            self.s2k = String2Key()\n            raise\n", 'C06.3')
+M('C06', 'keyblob-failure-usage-0', FL, _ENC_LINE, "        try:\n    " + _ENC_LINE + "        except PGPError:\n            self.s2k.usage = 0\n            raise\n", 'C06.3')
+M('C06', 'pkt-protect-failure-drops-ciphertext', PK, "        self.keymaterial.encrypt_keyblob(passphrase, enc_alg, hash_alg)\n        del passphrase\n        self.update_hlen()\n",
+  "        try:\n            self.keymaterial.encrypt_keyblob(passphrase, enc_alg, hash_alg)\n        except Exception:\n            self.keymaterial.s2k = String2Key()\n            self.keymaterial.encbytes = bytearray()\n            raise\n        del passphrase\n        self.update_hlen()\n", 'C06.3')
+T('C06', 'twin-keyblob-failure-logged', FL, _ENC_LINE, "        try:\n    " + _ENC_LINE + "        except Exception:\n            del pt\n            raise\n")
+_UNLOCKED = "        if self.protected:\n            return 0 not in list(self.keymaterial)\n        return True  # pragma: no cover\n"
+M('C06', 'unlocked-cached-flag', PK, _UNLOCKED, "        if self.protected:\n            return getattr(self, '_unlocked', False)\n        return True  # pragma: no cover\n", 'C06.6',
+  more=[(PK, "    def unprotect(self, passphrase):\n        self.keymaterial.decrypt_keyblob(passphrase)\n", "    def unprotect(self, passphrase):\n        self.keymaterial.decrypt_keyblob(passphrase)\n        self._unlocked = True\n")])
+M('C06', 'unlocked-from-encbytes', PK, _UNLOCKED, "        if self.protected:\n            return bool(self.keymaterial.encbytes) and self._decrypted\n        return True  # pragma: no cover\n", 'C06.6')
+T('C06', 'twin-unlocked-all-nonzero', PK, _UNLOCKED, "        if not self.protected:\n            return True  # pragma: no cover\n        fields = list(self.keymaterial)\n        return all(f != 0 for f in fields)\n")
 M('C06', 'keyblob-clear-first', FL, "        sessionkey = self.s2k.derive_key(passphrase)\n        del passphrase\n\n        pt = bytearray()\n", "        sessionkey = self.s2k.derive_key(passphrase)\n        del passphrase\n        self.clear()\n\n        pt = bytearray()\n", 'C06.3',
   more=[(FL, "        # delete pt and clear self\n        del pt\n        self.clear()", "        # delete pt\n        del pt")])
 M('C06', 'privkey-cached-module-dict', FL, "        params = dsa.DSAParameterNumbers(self.p, self.q, self.g)\n        pn = dsa.DSAPublicNumbers(self.y, params)\n        return dsa.DSAPrivateNumbers(self.x, pn).private_key(default_backend())",
